@@ -103,6 +103,22 @@ pub fn o_c20(_p: &Plan, b: &Built, st: &mut Stats) -> Result<bool, Fail> {
                 bi.bid, e
             ))
         })?;
+        // print_par_seq writes the same plan to standard output
+        if let Some(out) = b.ctx.printed_texts.lock().unwrap().get(&bi.bid) {
+            let from_stdout = parse_par_seq(out).map_err(|e| {
+                Fail::new(format!(
+                    "what print_par_seq wrote to standard output for builder {} is not a seq/par/seq nesting: {} (text: {:?})",
+                    bi.bid, e, out
+                ))
+            })?;
+            if from_stdout != parsed {
+                return Err(Fail::new(format!(
+                    "builder {}: print_par_seq wrote {:?} to standard output, {{:?}} gives {:?}",
+                    bi.bid, out, text
+                )));
+            }
+            st.class("print_par_seq_output_compared");
+        }
         let l = &b.layouts.by_bid[&bi.bid];
         let shape: Vec<Vec<usize>> = parsed
             .iter()
@@ -326,6 +342,34 @@ fn plant(src: &mut Src, plan: &mut Plan) -> Option<Planted> {
                 });
             }
             0 => {
+                // a name nobody registered: a fixed one, or a look-alike of a registered name (its
+                // printed form, another separator, other case, a prefix, a trailing blank, doubled)
+                if !earlier.is_empty() && src.chance(10, 16) {
+                    let base = earlier[src.pick(earlier.len())].clone();
+                    let mut prefix = base.clone();
+                    prefix.pop();
+                    let cands = [
+                        sanitise(&base),
+                        base.replace('_', "-"),
+                        base.replace('_', " "),
+                        format!("{} ", base),
+                        base.to_uppercase(),
+                        prefix,
+                        format!("{}{}", base, base),
+                    ];
+                    let start = src.pick(cands.len());
+                    for j in 0..cands.len() {
+                        let c = &cands[(start + j) % cands.len()];
+                        if !c.is_empty() && !earlier.contains(c) {
+                            push_dep(&mut ops[k], c, false);
+                            return Some(Planted {
+                                path,
+                                name: c.clone(),
+                                kind: "dep-on-look-alike-of-a-registered-name".into(),
+                            });
+                        }
+                    }
+                }
                 let n = format!("nope{}", src.pick(4));
                 push_dep(&mut ops[k], &n, false);
                 return Some(Planted {
@@ -761,6 +805,9 @@ pub fn run_external(property: &'static str, quick: bool, seed: u64) -> crate::dr
     let gcfg = GenCfg {
         max_ops: 14,
         tl_in_batch_access: false,
+        // the layout properties look at the classes they are about
+        p_barrier: if property == "C03" { 4 } else { 1 },
+        p_dep: if property == "C02" || property == "C10" { 10 } else { 5 },
         ..GenCfg::default()
     };
     // every other plan comes from the funnel class (groups filled to capacity)
@@ -790,10 +837,17 @@ fn run_external_on(property: &'static str, plans: Vec<Plan>, seed: u64) -> crate
     let name = match property {
         "C19" => "c19-processes",
         "C20" => "c20-nopar",
+        "C01" => "c01-nopar",
+        "C02" => "c02-nopar",
+        "C03" => "c03-nopar",
+        "C10" => "c10-nopar",
         _ => "c05-nopar",
     };
+    let layout_only = matches!(property, "C01" | "C02" | "C03" | "C10");
     let rule = if property == "C20" {
         "generated registration sequences formatted with {:?} (every nested builder) in this process, in a second process and by the harness built WITHOUT the `parallel` feature; oracle: the printed texts are identical (the text of this process is checked against the executed plan by c20-printed); non-trivial = >= 2 stages; distinct = plan hash"
+    } else if layout_only {
+        "the property's plan classes (general generator tilted to barriers for C03 and to dependencies for C02 / C10, every other plan from the funnel class) summarised (canonical nested layout) in this process, in a second process and by the harness built against shred WITHOUT the `parallel` feature; oracle: the layouts are identical, so everything the in-process layout oracles of this property establish holds for that build too; non-trivial = >= 2 stages; distinct = plan hash"
     } else if property == "C19" {
         "generated registration sequences (general generator) summarised (canonical nested layout) in this process, in a SECOND PROCESS of the same binary (ahash is seeded per process) and by the harness built against shred WITHOUT the `parallel` feature; oracle: the three layouts are identical; non-trivial = >= 2 stages; distinct = plan hash"
     } else {
@@ -884,7 +938,7 @@ fn run_external_on(property: &'static str, plans: Vec<Plan>, seed: u64) -> crate
                     if theirs["printed"] != mine["printed"] {
                         diffs.push(format!("printed plan differs: {} vs {}", mine["printed"], theirs["printed"]));
                     }
-                } else if property == "C19" {
+                } else if property == "C19" || layout_only {
                     if theirs["layouts"] != mine["layouts"] {
                         diffs.push(format!("plan differs: {} vs {}", mine["layouts"], theirs["layouts"]));
                     }
